@@ -230,6 +230,46 @@ class Ctx:
     def note(self, s: str):
         self.notes.append(s)
 
+    # ---- parallel workers: each builds its own Ctx, returns dump(); parent merges ----
+    def dump(self) -> Dict[str, Any]:
+        return {"evaluations": self.evaluations, "hashes": self.hashes, "nontrivial": self.nontrivial,
+                "samples": self.samples, "dist": self.dist, "disagreements": self.disagreements,
+                "failures": self.failures, "known": self.known, "relations": self.relations, "notes": self.notes}
+
+    def merge(self, d: Dict[str, Any]):
+        self.evaluations += d["evaluations"]
+        self.hashes |= d["hashes"]
+        self.nontrivial |= d["nontrivial"]
+        for s_ in d["samples"]:
+            if len(self.samples) < 8:
+                self.samples.append(s_)
+        for k, v in d["dist"].items():
+            self.dist[k] = self.dist.get(k, 0) + v
+        for k, v in d["relations"].items():
+            self.relations[k] = self.relations.get(k, 0) + v
+        for k, v in d["known"].items():
+            self.known[k] = self.known.get(k, 0) + v
+        self.disagreements += d["disagreements"][:50 - len(self.disagreements)] if len(self.disagreements) < 50 else []
+        self.failures += d["failures"][:50 - len(self.failures)] if len(self.failures) < 50 else []
+        for n in d["notes"]:
+            if n not in self.notes:
+                self.notes.append(n)
+
+
+def pmap(ctx: "Ctx", worker: Callable, jobs: List[Any], procs: int = 0):
+    """Run worker(job_args) -> Ctx.dump() in a fork pool and merge into ctx.
+    `worker` must be a module-level function taking (pid, tier, seed, job)."""
+    import multiprocessing as mp
+    procs = procs or min(NPROC, max(1, len(jobs)))
+    args = [(ctx.pid, ctx.tier, ctx.seed, j) for j in jobs]
+    if procs == 1 or len(jobs) == 1:
+        for a in args:
+            ctx.merge(worker(*a))
+        return
+    with mp.get_context("fork").Pool(procs) as pool:
+        for d in pool.starmap(worker, args, chunksize=1):
+            ctx.merge(d)
+
 
 def _short(x, n=400):
     s = repr(x)
